@@ -263,8 +263,39 @@ def gen_dunders(rng):
     return sorted(rng.sample(sorted(HOSTILE_DUNDERS), rng.randint(1, 5)))
 
 
+class SlotModel(Model):
+    """A model class that declares __slots__ (the idiom of the package's own classes): its instances have no __dict__."""
+    __slots__ = ("note",)
+
+
+class OwnAttrModel(Model):
+    """A model class keeping state of its own under everyday attribute names, on the class and on the instance."""
+    paused = True
+    active = False
+    last_executed = -1
+
+    def __init__(self, *a, **k):
+        super().__init__(*a, **k)
+        for k_, v_ in OWN_ATTRS.items():
+            if k_ not in ("systems", "complete", "timestep"):
+                setattr(self, k_, v_)
+
+
+def model_class(sc, ctx=None):
+    kind = sc.get("model_kind")
+    if kind and ctx is not None:
+        ctx.probe("model_class_" + kind)
+    return {"slotted": SlotModel, "own_attributes": OwnAttrModel}.get(kind, Model)
+
+
 def gen_flavour(rng):
     """Scenario fields deciding the class of the recording systems (drawn last, so older fields keep their stream)."""
+    out = _gen_flavour(rng)
+    out["model_kind"] = rng.choice([None] * 8 + ["slotted", "own_attributes"])
+    return out
+
+
+def _gen_flavour(rng):
     r = rng.random()
     ret = rng.choice([None, None, None, None, None, "false", "mixed"])      # execute() of a user system may return anything
     if r < 0.12:
